@@ -95,6 +95,18 @@ BundleCapFails(r) ==
        (IF r.ret_big = Len(enc) /\ r.bytes = enc THEN {} ELSE {"reference_image"})
        \cup Tagged("bundle:", CapFailsOne(r, enc, r.rets, r.zero, r.eq, r.guard, r.asan))
 
+\* ------------------------------------------------------------------ C02, the library's own fixed buffers
+\* ThreadLink::write / writeArray (write_buffer of MaxMsg bytes, then the ring) and RtData::reply / broadcast (8192-byte
+\* stack buffer): a message of `need` bytes (image established by the reference constructor) either arrives whole or not at
+\* all - "empty" is the zero-filled buffer the fail-closed constructor leaves behind; what was queued before is untouched.
+SinkFails(r) ==
+  IF r.sig # 0 THEN {"sink:crash_or_hang"}
+  ELSE LET fits == r.need <= r.cap /\ (r.what \in {"ThreadLink::write", "ThreadLink::writeArray"} => r.need <= r.free) IN
+       {k \in {"sink:write_outside_buffer", "sink:fitting_message_not_delivered", "sink:oversized_message_delivered_or_partial", "sink:queued_messages_disturbed"} :
+        ~ CASE k = "sink:write_outside_buffer" -> r.asan = 0
+            [] k = "sink:fitting_message_not_delivered" -> fits => r.got = "same"
+            [] k = "sink:oversized_message_delivered_or_partial" -> ~ fits => r.got \in {"none", "empty"}
+            [] k = "sink:queued_messages_disturbed" -> r.pre_ok }
 \* ------------------------------------------------------------------ C07
 \* arbitrary bytes b (length n).  Always: no read outside b, termination, length in {0} \cup 1..n.
 \* If the predicate accepts: b must be decodable by the specification's (padding-lenient)
@@ -126,6 +138,7 @@ BytesFails(r) ==
 Fails(r) == CASE r.k = "msg" -> MsgFails(r)
               [] r.k = "cap" -> CapFails(r)
               [] r.k = "bytes" -> BytesFails(r)
+              [] r.k = "sink" -> SinkFails(r)
               [] r.k = "bundle" -> IF Has(IOEnv, "BUNDLE_AS") /\ IOEnv.BUNDLE_AS = "cap" THEN BundleCapFails(r) ELSE BundleFails(r)
               [] OTHER -> {"unknown_record_kind"}
 Judge == l < 0 \/ LET f == Fails(Log[l]) IN f = {} \/ PrintT(<<"REJECT", l, f>>)
